@@ -18,6 +18,8 @@ theorem verdict : (classify Generated.factsC29).Sound (Holds (cfgOf Generated.fa
 #print axioms Hv.Storage.compaction_keeps_name
 #print axioms compacted_v3
 #print axioms compacted_v2
+#print axioms scan_v2
+#print axioms compactFromIndex_keeps_given_name
 #print axioms Hv.Storage.listing_spec
 #print axioms listing_exact
 #print axioms Hv.Storage.page_tiles
